@@ -185,9 +185,15 @@ impl Property for C17 {
                 }
                 let from = addr(fam6, 2, 60_000 + k as u32, 30_000);
                 let tid = rng.bytes_in(0, 32);
+                // (two outstanding queries from one address must not share a transaction id, or the
+                // monitor cannot tell whose reply an oversize datagram is)
+                let mut tid2 = rng.bytes_in(0, 32);
+                if tid2 == tid {
+                    tid2.push(b'f');
+                }
                 let target = if rng.chance(1, 2) { ih } else { own };
                 step(&mut sc, When::At(t), Op::Probe { from, to: node, msg: ProbeMsg::Bytes(get_peers(&tid, &pid, &ih, *w)), timeout_ms: 3_000 });
-                step(&mut sc, When::At(t + 5), Op::Probe { from, to: node, msg: ProbeMsg::Bytes(find_node(&rng.bytes_in(0, 32), &pid, &target, *w)), timeout_ms: 3_000 });
+                step(&mut sc, When::At(t + 5), Op::Probe { from, to: node, msg: ProbeMsg::Bytes(find_node(&tid2, &pid, &target, *w)), timeout_ms: 3_000 });
                 t += 10;
             }
         }
